@@ -324,6 +324,8 @@ func (c *callEngine) callWithStack(ctx context.Context, paramResultStack []uint6
 						lsn.Abort(ctx, m, def, err)
 					}
 				}
+				// As after a panic: an asynchronous close is completed by this call, whichever way it ends.
+				_ = c.parent.module.FailIfClosed()
 			}
 		}
 
